@@ -85,6 +85,7 @@ def spec_panel(work, zones, tier, verdict):
 
 # stage 2: which events of the traced test-suite run each property judges
 SUITE_KINDS = {"C01": ("Break",), "C02": ("Make",), "C11": ("Next", "Prev"), "C10": ("Break", "Make", "Next", "Prev")}
+ANCIENT_NEG = set()   # ... of them, those whose generated table ends in a negative year
 ANCIENT = set()       # names of zones in the class of the known finding "ancient-dst-zone"
 
 
@@ -95,10 +96,14 @@ def classify(e, names):
         src = "ancient-dst-zone"
     k = e["e"] + (":subsecond" if e.get("sub") == 1 else "")
     if e.get("ub") == 1:
-        if src == "ancient-dst-zone" and "cs" in e and from_limbs(e["cs"][0]) > (1 << 62):
+        if src == "ancient-dst-zone" and z in ANCIENT_NEG and "cs" in e and from_limbs(e["cs"][0]) > (1 << 62):
             # the listed finding: `cs.year() - last_year_` in MakeTime with a negative last_year_
             return "%s:%s:undefined-behaviour:civil-year-near-int64-max" % (k, src)
         return "%s:%s:undefined-behaviour" % (k, src)
+    if src == "ancient-dst-zone" and e["e"] in ("Make", "Convert", "RT2") and "cs" in e and from_limbs(e["cs"][0]) > 2038:
+        # the listed finding concerns civil times up to the 2038 sentinel (the static stretch after the generated table);
+        # later civil years are answered through the year shift and are right on the pinned tree
+        return "%s:%s:wrong-result:civil-year-after-2038" % (k, src)
     return "%s:%s:wrong-result" % (k, src)
 
 
@@ -132,6 +137,8 @@ def run(pid, tier, seed):
     zl, zones, nship, ngen = corpus(work, tier, seed)
     ANCIENT.clear()
     ANCIENT.update(n for n, p in zones if tzgen.is_ancient_dst(open(p, "rb").read()))
+    ANCIENT_NEG.clear()
+    ANCIENT_NEG.update(n for n, p in zones if tzgen.ancient_negative_last_year(open(p, "rb").read()))
     panel, npanel = spec_panel(work, zones, tier, verdict)
     nsh = max(2, V.NCPU - 2)
     dr = V.run_driver(exe, [zl, os.path.join(work, "t"), nsh, seed, tier, cfgd["fam"], panel], timeout=3000)
